@@ -18,5 +18,5 @@ Bound == TRUE
 NoMut == {}
 MutDrop == {"drop_on_rotation_failure"}
 \* rep / lastfx describe the last action only, wt and forced are history: none of them influences the future
-ViewF == <<dir, files, w, clk, cfg, logged, runs, trigs, advs, gone, okgone, nfx, plan, lostw, recov>>
+ViewF == <<dir, files, w, clk, cfg, logged, runs, trigs, advs, gone, okgone, nfx, plan, lostw, recov, lnk>>
 =============================================================================
